@@ -31,9 +31,9 @@ def do(act, self):
         LOG.append(("act", "f", None))
         try: f()
         finally: LOG.append(("act_end",))
-    elif act == "g":
-        LOG.append(("act", "g", None))
-        try: g()
+    elif act in ("g", "g2", "h"):
+        LOG.append(("act", act, None))
+        try: {"g": g, "g2": g2, "h": h}[act]()
         finally: LOG.append(("act_end",))
     elif act in ("self.m", "other.m"):
         me = self if self is not None else OBJ["A"]
@@ -73,14 +73,17 @@ class E_f_pre(Exception): pass
 class E_f_post(Exception): pass
 class E_g_pre(Exception): pass
 class E_g_post(Exception): pass
+class E_g2_pre(Exception): pass
+class E_g2_post(Exception): pass
+class E_h_post(Exception): pass
 class E_m_pre(Exception): pass
 class E_m_post(Exception): pass
 class E_K_inv(Exception): pass
 def f_pre(): return slot("f.pre")
 def f_post(): return slot("f.post")
 def f_cap(): return slot("f.cap")
-def g_pre(): return slot("g.pre")
-def g_post(): return slot("g.post")
+def h_cap(): return slot("h.cap")
+def h_post(): return slot("h.post")
 def m_pre(self): return slot("m.pre", self)
 def m_post(self): return slot("m.post", self)
 def K_inv(self): return slot("K.inv", self)
@@ -91,10 +94,21 @@ def K_inv(self): return slot("K.inv", self)
 def f():
     body_slot("f.body")
 
-@icontract.require(g_pre, error=E_g_pre)
-@icontract.ensure(g_post, error=E_g_post)
-def g():
-    body_slot("g.body")
+def make_g(tag, e_pre, e_post):
+    # g and g2 are two distinct contracted functions sharing ONE code object (and so do their conditions)
+    @icontract.require(lambda: slot(tag + ".pre"), error=e_pre)
+    @icontract.ensure(lambda: slot(tag + ".post"), error=e_post)
+    def g():
+        body_slot(tag + ".body")
+    return g
+g = make_g("g", E_g_pre, E_g_post)
+g2 = make_g("g2", E_g2_pre, E_g2_post)
+
+# h has NO precondition: only a capture and a postcondition
+@icontract.snapshot(h_cap, name="s")
+@icontract.ensure(h_post, error=E_h_post)
+def h():
+    body_slot("h.body")
 
 @icontract.invariant(K_inv, error=E_K_inv)
 class K(icontract.DBC):
@@ -110,11 +124,11 @@ class K(icontract.DBC):
 KEEP = []
 '''
 
-CONTRACT_SLOTS = ["f.pre", "f.cap", "f.post", "g.pre", "g.post", "m.pre", "m.post", "K.inv"]
-BODY_SLOTS = ["f.body", "g.body", "m.body", "K.init"]
+CONTRACT_SLOTS = ["f.pre", "f.cap", "f.post", "g.pre", "g.post", "g2.pre", "g2.post", "h.cap", "h.post", "m.pre", "m.post", "K.inv"]
+BODY_SLOTS = ["f.body", "g.body", "g2.body", "h.body", "m.body", "K.init"]
 SLOTS = CONTRACT_SLOTS + BODY_SLOTS
-ACTIONS = ["f", "g", "self.m", "other.m", "K()"]
-TOPS = ["f", "g", "self.m", "K()"]
+ACTIONS = ["f", "g", "g2", "h", "self.m", "other.m", "K()"]
+TOPS = ["f", "g", "g2", "h", "self.m", "K()"]
 
 
 def scripts(maxlen):
@@ -132,20 +146,28 @@ def programs(tier):
         for sc in s2:
             progs.append({slot: sc})
     for a, b in itertools.combinations(SLOTS, 2):
-        for sa in (s2 if tier == "thorough" else s1 + s2[len(s1):len(s1) + 0]):
-            for sb in s2 if tier == "thorough" else s1:
-                progs.append({a: sa, b: sb})
-        if tier == "quick":
-            # one slot with a 2-script, the other with a 1-script (both ways)
-            for sa in s2[len(s1):]:
-                for sb in s1:
+        if tier == "thorough":
+            for sa in s2:
+                for sb in s2:
                     progs.append({a: sa, b: sb})
-                    progs.append({a: sb, b: sa})
-    if tier == "thorough":
-        for a, b, c in itertools.combinations(SLOTS, 3):
+        else:
             for sa in s1:
                 for sb in s1:
-                    for sc in s1:
+                    progs.append({a: sa, b: sb})
+            # one slot with a 2-script, the other with a 1-script: for pairs of contract slots of f/g/m/K only
+            core_slots = ("f.pre", "f.post", "g.pre", "m.pre", "m.post", "K.inv", "m.body", "f.body")
+            if a in core_slots and b in core_slots:
+                acts = ("f", "g", "self.m", "other.m")
+                for sa in [list(p) for p in itertools.product(acts, repeat=2)]:
+                    for sb in [[x] for x in acts]:
+                        progs.append({a: sa, b: sb})
+                        progs.append({a: sb, b: sa})
+    if tier == "thorough":
+        for a, b, c in itertools.combinations(SLOTS, 3):
+            small = [[x] for x in ("f", "g", "g2", "self.m", "other.m")]
+            for sa in small:
+                for sb in small:
+                    for sc in small:
                         progs.append({a: sa, b: sb, c: sc})
     # An invariant that constructs a new instance of its own class recurses without bound in *any* semantics that
     # checks distinct objects (every new object is a different one): such programs are not part of the property.
@@ -190,9 +212,11 @@ def ancestors(n):
         n = n.parent
 
 
-FUNC_CONTRACTS = {"f": {"f.pre", "f.cap", "f.post"}, "g": {"g.pre", "g.post"}, "m": {"m.pre", "m.post"}}
-FULL = {"f": ["f.pre", "f.cap", "f.body", "f.post"], "g": ["g.pre", "g.body", "g.post"], "m": ["m.pre", "m.body", "m.post"]}
-BARE = {"f": ["f.body"], "g": ["g.body"], "m": ["m.body"]}
+FUNC_CONTRACTS = {"f": {"f.pre", "f.cap", "f.post"}, "g": {"g.pre", "g.post"}, "g2": {"g2.pre", "g2.post"}, "h": {"h.cap", "h.post"},
+                  "m": {"m.pre", "m.post"}}
+FULL = {"f": ["f.pre", "f.cap", "f.body", "f.post"], "g": ["g.pre", "g.body", "g.post"], "g2": ["g2.pre", "g2.body", "g2.post"],
+        "h": ["h.cap", "h.body", "h.post"], "m": ["m.pre", "m.body", "m.post"]}
+BARE = {"f": ["f.body"], "g": ["g.body"], "g2": ["g2.body"], "h": ["h.body"], "m": ["m.body"]}
 
 
 def judge_tree(root, complete):
@@ -206,7 +230,7 @@ def judge_tree(root, complete):
             continue
         slots = [c for c in n.children if c.kind == "slot"]
         names = [c.name for c in slots]
-        if n.name in ("f", "g", "m"):
+        if n.name in ("f", "g", "g2", "h", "m"):
             own = FUNC_CONTRACTS[n.name]
             must = not any(a.kind == "slot" and a.name in own for a in ancestors(n))
             core_names = [x for x in names if x != "K.inv"]
@@ -308,7 +332,7 @@ def check_program(prog, acc):
         while stack:
             n = stack.pop()
             stack.extend(n.children)
-            if n.kind == "slot" and n.name in ("f.pre", "f.post", "g.pre", "g.post", "m.pre", "m.post", "K.inv"):
+            if n.kind == "slot" and n.name in ("f.pre", "f.post", "g.pre", "g.post", "g2.pre", "g2.post", "h.post", "m.pre", "m.post", "K.inv"):
                 call = n.parent
                 own = FUNC_CONTRACTS.get(call.name, set()) if call is not None and call.kind == "call" else set()
                 # evaluated as part of a checked call: the error has to propagate to the top (nobody catches)
@@ -344,9 +368,10 @@ def run(tier, t0):
     tot = core.merge(core.pmap(work, core.rotate(progs)))
     return core.finish(
         PROP, tier, tot, t0,
-        rule="call-graph programs over f, g (pre/post, f also a capture), class K(DBC) with invariant, method m (pre/post), "
-             "constructor, instances A and B: every slot (8 contract slots, 4 body slots) may hold a script of 0-2 actions from "
-             "{f(), g(), self.m(), other.m(), K()}; enumerated: every program with <= 2 (quick) / 3 (thorough) non-empty slots, "
+        rule="call-graph programs over f (pre/capture/post), g and g2 (pre/post, made by one factory: shared code objects), h (capture/post "
+             "only, no precondition), class K(DBC) with invariant, method m (pre/post), "
+             "constructor, instances A and B: every slot (12 contract slots, 6 body slots) may hold a script of 0-2 actions from "
+             "{f(), g(), g2(), h(), self.m(), other.m(), K()}; enumerated: every program with <= 2 (quick) / 3 (thorough) non-empty slots, "
              "x 4 top-level actions x (all true | each evaluated condition falsy). A monitor checks on the real event tree that "
              "the run terminates and that every call whose ancestors contain no evaluation of its own contracts (resp. no "
              "operation on the same object) is fully checked; re-entrant calls may be checked or bare; non-trivial = every program",
